@@ -3,7 +3,7 @@
 from __future__ import annotations
 
 from c09_impl import scheme_of
-from common.vlib import g_bool, g_list, g_nat, g_opt, g_z
+from common.vlib import g_bool, g_list, g_nat, g_opt, g_str, g_z
 
 
 class Unencodable(Exception):
@@ -239,4 +239,6 @@ def case_term(case, obs):
     out = obs["outcome"]
     outcome = f"(Raise {KIND[out[1]]})" if out[0] == "raise" else f"(Ok {value_term(out[1], it)})"
     ordered = case["op"]["name"] in ORDERED and case["op"].get("uri") is not None
-    return f"(mkCase {bs} {mx} {op} {g_bool(ordered)} ({log_term(obs['log'], it)}, {outcome}))"
+    log = log_term(obs["log"], it)
+    texts = g_list([f"({g_str(u)}, {g_str(scheme_of(u))})" for u in it.uris])
+    return f"(mkCase {bs} {mx} {op} {g_bool(ordered)} {texts} ({log}, {outcome}))"
